@@ -264,8 +264,36 @@ def _collect(shard, seed, n):
     return col
 
 
+def _rendezvous_sweep(args):
+    """Bounded exhaustive sweep: one thread pauses at its n-th source line inside one function of the send path until another thread
+    has completed its next hand-over step - the transport thread inside write()/_write()/_set_selector_events_mask()/read() until the
+    state machine thread has left its next critical section (= handed over the next batch), and a submitter inside
+    send_message()/put_message_into_send_queue() until the state machine thread has taken from the queue.  Three staggered
+    messages, optional tiny partial writes and inbound data."""
+    role, thread, func, until, nmax = args
+    common.bootstrap()
+    from .. import refdict
+    refdict.all_classes()
+    col = Collector(PID, RULE)
+    for n in range(1, nmax + 1):
+        for pw in ("full", "tiny"):
+            case = {"role": role, "subs": [{"msgs": [{"kind": "req", "size": 100}] * 3, "api": "send_message", "gap": 0.011}],
+                    "pw": pw, "sizes": [7] * 30 if pw == "tiny" else [], "inbound": ["app"] if pw == "tiny" else [], "inbound_after": 2 if pw == "tiny" else 0,
+                    "sched": [], "lines": False, "gen2": None, "holds": [[thread, "line:" + func, n, 0.5, until[0], until[1]]]}
+            vs, info = run_one(case)
+            col.record(case, vs, nontrivial=True, classes=["rendezvous-sweep", "role=" + role, "pw=" + pw])
+    return col
+
+
 def main(ctx):
     col = common.run_shards(_collect, 8 if ctx.quick else 16, ctx.seed, n=140 if ctx.quick else 2500)
+    nmax = 10 if ctx.quick else 24
+    jobs = [(role, "transport_layer_thread", f, ("PSM", "lock.released"), nmax) for role in ("client", "server")
+            for f in ("write", "_write", "_set_selector_events_mask", "read")] + \
+           [(role, "submitter-0", f, ("PSM", "queue.get"), nmax) for role in ("client", "server") for f in ("send_message", "put_message_into_send_queue")]
+    for part in common.pmap(_rendezvous_sweep, jobs):
+        col.merge(part)
+    col.extra["rendezvous_sweep"] = f"{len(jobs)} (thread, function) scenarios x {nmax} line positions x 2 write patterns"
     for path, rec in common.load_replays(PID):
         col.record(rec["case"], run_case(rec["case"]), nontrivial=True, classes=["replay"])
     ctx.required_classes = ["partial-write-happened", "inbound-traffic", "prefix-with-switch", "preempted-at-source-line", "submitters=2",
